@@ -15,6 +15,8 @@ structure S where
   nextS : Nat := 0
   vals : List (Nat × Nat) := []
   cur : List (String × Nat) := []       -- value a manual subscriber has just received (for `acked`)
+  iterRecv : List (String × Nat) := []  -- receptions of the running iterator of a subscriber goroutine
+  iterYield : List (String × Nat) := [] -- values its loop body was handed
 
 def rej (x : S) (why : String) : Option (S × String × List String) := some (x, "rejected: " ++ why, [])
 def ok (x : S) (tags : List String := []) : Option (S × String × List String) := some (x, "ok", tags)
@@ -156,7 +158,9 @@ def step (x : S) (ws : List String) : Option (S × String × List String) :=
   | ["xfer", s, "pubsub.iter.recv", u, _] => do
     let a ← x.smap.lookup s
     let i ← x.umap.lookup u
-    act x (.recv a i) s!"a value was received by a subscriber that is not between rounds (model pc {pcName (x.st.subs i).pc}), or the Send had none left" ["deliver_iter"]
+    let n := (x.iterRecv.lookup u).getD 0
+    act { x with iterRecv := (u, n + 1) :: x.iterRecv.filter (·.1 != u) } (.recv a i)
+      s!"a value was received by a subscriber that is not between rounds (model pc {pcName (x.st.subs i).pc}), or the Send had none left" ["deliver_iter"]
   | ["xfer", s, "caster.add.absorbed", u, _] => do
     let a ← x.smap.lookup s
     let i ← x.umap.lookup u
@@ -173,8 +177,15 @@ def step (x : S) (ws : List String) : Option (S × String × List String) :=
   | ["yield", u, v] => do
     let v ← kv v "v"
     let i ← x.umap.lookup u
-    if (x.st.subs i).got.getLast? == some v then ok x ["yield"] else rej x s!"the iterator yielded {v}; model {(x.st.subs i).got.getLast?}"
-  | ["iterend", _] => ok x
+    let n := (x.iterYield.lookup u).getD 0
+    if (x.st.subs i).got.getLast? == some v then ok { x with iterYield := (u, n + 1) :: x.iterYield.filter (·.1 != u) } ["yield"]
+    else rej x s!"the iterator yielded {v}; model {(x.st.subs i).got.getLast?}"
+  | ["iterend", u] =>
+    -- every value the iterator received (and acknowledged, so the Send counted it) must have been handed to the loop body
+    let r := (x.iterRecv.lookup u).getD 0
+    let y := (x.iterYield.lookup u).getD 0
+    let x := { x with iterRecv := x.iterRecv.filter (·.1 != u), iterYield := x.iterYield.filter (·.1 != u) }
+    if r == y then ok x else rej x s!"the iterator received {r} values but its loop body was handed {y}"
   -- ---- unsubscribe
   | ["pubsub.unsub.try", u, n] => do
     let n ← kv n "n"
